@@ -714,6 +714,18 @@ func coordinate(cfg *Config) int {
 			if i >= 6 {
 				break
 			}
+			if len(s.Choices) > 200 || len(s.Trace) > 200 {
+				// long executions (large backlogs): keep the evidence file small
+				c := *s
+				if len(c.Choices) > 200 {
+					c.Outcome = fmt.Sprintf("%s [%d choices, first 200 kept]", c.Outcome, len(c.Choices))
+					c.Choices = c.Choices[:200]
+				}
+				if len(c.Trace) > 200 {
+					c.Trace = c.Trace[:200]
+				}
+				s = &c
+			}
 			sampleAny = append(sampleAny, s)
 		}
 		if len(sampleAny) == 0 {
